@@ -3,6 +3,7 @@
 package main
 
 import (
+	"bytes"
 	"encoding/hex"
 	"fmt"
 	"os"
@@ -566,6 +567,33 @@ func (d *brokerDrv) Step(line string) string {
 				x := uint32(geti(m, "se", 0))
 				dp.Properties.SessionExpiryInterval = &x
 			}
+		}
+		if k := geti(m, "pre", 0); k > 0 {
+			// pipelining: k QoS 0 publishes (to a topic nobody subscribes) and the DISCONNECT leave in ONE write and the
+			// socket is closed at once, so the broker finds the DISCONNECT buffered behind other packets when it sees EOF.
+			// A DISCONNECT the client has sent must still be honoured (will suppression, session expiry update).
+			var buf bytes.Buffer
+			for i := 0; i < k; i++ {
+				pp := &packets.Publish{Version: c.Version, TopicName: []byte("zz/pre"), Payload: []byte("x")}
+				if c.Version == 5 {
+					pp.Properties = &packets.Properties{}
+				}
+				n0 := buf.Len()
+				if err := packets.NewWriter(&buf).WriteAndFlush(pp); err != nil {
+					return "bad-op"
+				}
+				c.NoteSent(packets.PUBLISH, buf.Len()-n0, 0)
+			}
+			n0 := buf.Len()
+			if err := packets.NewWriter(&buf).WriteAndFlush(dp); err != nil {
+				return "bad-op"
+			}
+			c.NoteSent(packets.DISCONNECT, buf.Len()-n0, 0)
+			if err := c.SendRawThenClose(buf.Bytes()); err != nil {
+				return "send-failed " + d.collect("")
+			}
+			r := d.collect("")
+			return r + " " + d.collect("")
 		}
 		if err := c.Send(dp); err != nil {
 			return "send-failed " + d.collect("")
